@@ -49,7 +49,7 @@ CHECKS = {
     "C24": {
         "level": "exploration",
         "technique": "runtime monitoring: universal wire monitor (independent MQTT 3.1.1 parser + per-packet validator) on the gateway->broker stream of hostile and ordinary workloads",
-        "level_text": "Every MQTT packet written to the broker in the hostile-traffic, traffic, connect and sleep workloads is parsed and validated against the per-packet rules of MQTT 3.1.1 named in the property (and the remaining per-packet well-formedness rules).",
+        "level_text": "Every MQTT packet written to the broker in the hostile-traffic, traffic, connect and sleep workloads is parsed and validated against the per-packet rules of MQTT 3.1.1 named in the property (and the remaining per-packet well-formedness rules). The slow-broker workload adds a broker that stops reading for 50-450 ms and resumes while 10-6000 byte payloads are forwarded over a link with partial writes (a write deadline expires with a part of the packet already taken).",
         "level_note": "UTF-8 well-formedness and wildcard placement inside non-empty filters are not judged; sequence-level rules exempted by the property",
         "design_ref": "3/C24",
     },
